@@ -661,6 +661,17 @@ func (k msgServer) SetNetworkProperties(
 	if !isAllowed {
 		return nil, errors.Wrap(types.ErrNotEnoughPermissions, "PermChangeTxFee")
 	}
+	// the unique identity keys list is guarded the same way as in SetNetworkProperty
+	if msg.NetworkProperties != nil {
+		oldKeys := k.keeper.GetNetworkProperties(ctx).UniqueIdentityKeys
+		newKeys := msg.NetworkProperties.UniqueIdentityKeys
+		if removedOldKey := k.keeper.EnsureOldUniqueKeysNotRemoved(ctx, oldKeys, newKeys); removedOldKey != "" {
+			return nil, fmt.Errorf("already existing key removed: %s", removedOldKey)
+		}
+		if notUniqueKey := k.keeper.EnsureUniqueKeys(ctx, oldKeys, newKeys); notUniqueKey != "" {
+			return nil, fmt.Errorf("already existing key not unique found: %s", notUniqueKey)
+		}
+	}
 	err := k.keeper.SetNetworkProperties(ctx, msg.NetworkProperties)
 	if err != nil {
 		return nil, err
